@@ -294,6 +294,37 @@ theorem notBefore_trace (u : Int) : ∀ (ins : List In) (s : AC) (t0 : Int),
         · exact Or.inl (by omega)
         · rw [hp] at h; cases h
 
+    | updateAddrs now bo =>
+      simp only [In.time] at ht hrest
+      unfold acStep
+      cases hp : s.phase with
+      | idle =>
+        simp only [List.nil_append]
+        refine ih _ now hrest ?_
+        rcases hready with h | ⟨u', b', h, _⟩
+        · exact Or.inl (by omega)
+        · rw [hp] at h; cases h
+      | backoff u' b' =>
+        simp only [List.nil_append]
+        refine ih _ now hrest ?_
+        rcases hready with h | ⟨u'', b'', h, hu⟩
+        · exact Or.inl (by omega)
+        · exact Or.inr ⟨u'', b'', h, hu⟩
+      | connecting b =>
+        simp only [List.cons_append, List.nil_append, notBefore, Bool.and_eq_true, decide_eq_true_eq]
+        have hu : u ≤ now := by
+          rcases hready with h | ⟨u', b', h, _⟩
+          · omega
+          · rw [hp] at h; cases h
+        exact ⟨hu, ih _ now hrest (Or.inl hu)⟩
+      | ready =>
+        simp only [List.cons_append, List.nil_append, notBefore, Bool.and_eq_true, decide_eq_true_eq]
+        have hu : u ≤ now := by
+          rcases hready with h | ⟨u', b', h, _⟩
+          · omega
+          · rw [hp] at h; cases h
+        exact ⟨hu, ih _ now hrest (Or.inl hu)⟩
+
 theorem paced_trace : ∀ (ins : List In) (s : AC) (t0 : Int), Mono t0 ins → paced (trace s ins) = true := by
   intro ins
   induction ins with
@@ -336,6 +367,11 @@ theorem paced_trace : ∀ (ins : List In) (s : AC) (t0 : Int), Mono t0 ins → p
       unfold acStep
       cases hp : s.phase <;> simpa [paced] using ih _ now hrest
     | connLost now =>
+      simp only [In.time] at ht hrest
+      unfold acStep
+      cases hp : s.phase <;> simpa [paced] using ih _ now hrest
+
+    | updateAddrs now bo =>
       simp only [In.time] at ht hrest
       unfold acStep
       cases hp : s.phase <;> simpa [paced] using ih _ now hrest
@@ -424,5 +460,19 @@ theorem idxOk_trace : ∀ (ins : List In) (s : AC), idxOk (cnt s) (trace s ins) 
       | idle => simpa using ih s
       | backoff u b => simpa using ih s
       | connecting b => simpa using ih s
+
+    | updateAddrs now bo =>
+      unfold acStep
+      cases hp : s.phase with
+      | idle => simpa using ih s
+      | backoff u b => simpa using ih s
+      | connecting b =>
+        have := ih { s with phase := .connecting bo }
+        simp only [cnt, hp] at this ⊢
+        simpa [idxOk] using this
+      | ready =>
+        have := ih { s with phase := .connecting bo }
+        simp only [cnt, hp] at this ⊢
+        simpa [idxOk] using this
 
 end GrpcProofs.Lemmas.Backoff
